@@ -104,6 +104,11 @@ pub(crate) struct Gen<'a> {
     pub n_conns_target: usize,
     /// connections never chosen by the random part (driven by the scenario itself)
     pub exclude: Vec<usize>,
+    /// what the model said about the last emitted step (labels), its connection and its first line
+    pub last_labels: Vec<String>,
+    pub last_conn: Option<usize>,
+    pub last_line: String,
+    pub follow_rate: (u32, u32),
 }
 
 fn ip_for(i: usize, v6: bool) -> String {
@@ -118,7 +123,7 @@ impl<'a> Gen<'a> {
     pub(crate) fn new(seed: u64, cfg: &SimConfig, prof: &'a Profile) -> Gen<'a> {
         let mut r = Rng::new(seed);
         let n = r.range(prof.conns.0, prof.conns.1);
-        Gen { r, m: Model::new(cfg), prof, actions: vec![], uniq: 0, n_conns_target: n, exclude: vec![] }
+        Gen { r, m: Model::new(cfg), prof, actions: vec![], uniq: 0, n_conns_target: n, exclude: vec![], last_labels: vec![], last_conn: None, last_line: String::new(), follow_rate: (1, 3) }
     }
 
     fn text(&mut self) -> String {
@@ -329,6 +334,7 @@ impl<'a> Gen<'a> {
     pub(crate) fn emit(&mut self, acts: Vec<Action>) -> bool {
         // apply to a trial copy of the model; drop the step if the model calls it ambiguous
         let mut trial = self.m.clone();
+        let mut labels: Vec<String> = vec![];
         for a in &acts {
             let se = match a {
                 Action::Open { ip } | Action::OpenSecure { ip } => trial.open(ip),
@@ -341,8 +347,16 @@ impl<'a> Gen<'a> {
             if se.ambiguous.is_some() {
                 return false;
             }
+            labels.extend(se.labels);
         }
         self.m = trial;
+        self.last_labels = labels;
+        self.last_conn = acts.iter().filter_map(|a| a.conn()).next();
+        self.last_line = acts
+            .iter()
+            .filter_map(|a| if let Action::Send { d, .. } = a { Some(String::from_utf8_lossy(&unesc(d)).trim_end().to_string()) } else { None })
+            .next()
+            .unwrap_or_default();
         self.actions.extend(acts);
         self.actions.push(Action::Settle);
         true
@@ -414,8 +428,187 @@ impl<'a> Gen<'a> {
             }
             if self.step(kind) {
                 done += 1;
+                if self.r.chance(self.follow_rate.0, self.follow_rate.1) {
+                    done += self.follow_up();
+                }
             }
         }
+    }
+
+    /// after a step that changed something, look at exactly the thing that changed (probes and enforcement)
+    pub(crate) fn follow_up(&mut self) -> usize {
+        let labels = self.last_labels.clone();
+        let line = self.last_line.clone();
+        let words: Vec<String> = line.split(' ').map(|s| s.to_string()).collect();
+        let lc = self.last_conn;
+        let regs = self.registered_conns();
+        if regs.is_empty() {
+            return 0;
+        }
+        let other = |g: &mut Gen, not: Option<usize>| -> usize {
+            let v: Vec<usize> = regs.iter().copied().filter(|c| Some(*c) != not).collect();
+            if v.is_empty() {
+                regs[0]
+            } else {
+                v[g.r.below(v.len())]
+            }
+        };
+        let has = |p: &str| labels.iter().any(|l| l.starts_with(p));
+        let mut n = 0;
+        if has("INVITE/ok") && words.len() >= 3 {
+            // the invitee uses the invitation, leaves, and tries again (one admission only)
+            if let Some(u) = self.m.users.get(&words[1]).cloned() {
+                let ch = words[2].clone();
+                if !self.exclude.contains(&u.conn) {
+                    n += self.say(u.conn, &format!("JOIN {}", ch)) as usize;
+                    if self.r.chance(1, 2) {
+                        n += self.say(u.conn, &format!("PART {}", ch)) as usize;
+                        n += self.say(u.conn, &format!("JOIN {}", ch)) as usize;
+                    }
+                }
+            }
+        } else if has("KICK/ok") && words.len() >= 3 {
+            // the victim lost membership and rank
+            let ch = words[1].clone();
+            let victim = words[2].split(',').next().unwrap_or("").to_string();
+            if let Some(u) = self.m.users.get(&victim).cloned() {
+                if !self.exclude.contains(&u.conn) {
+                    n += self.say(u.conn, &format!("JOIN {}", ch)) as usize;
+                    n += self.say(u.conn, &format!("NAMES {}", ch)) as usize;
+                }
+            }
+        } else if has("NICK/changed") && words.len() >= 2 {
+            let newn = words[1].clone();
+            let oldn = lc.and_then(|_| self.m.history.keys().last().cloned()).unwrap_or_default();
+            let o = other(self, lc);
+            let chans: Vec<String> = self.m.users.get(&newn).map(|u| u.chans.iter().cloned().collect()).unwrap_or_default();
+            match self.r.below(6) {
+                0 => n += self.say(o, &format!("WHOIS {}", newn)) as usize,
+                1 => {
+                    if let Some(ch) = chans.first() {
+                        n += self.say(o, &format!("NAMES {}", ch)) as usize;
+                        if let Some(c) = lc {
+                            n += self.say(c, &format!("MODE {}", ch)) as usize;
+                        }
+                    }
+                }
+                2 => n += self.say(o, &format!("PRIVMSG {} :to the new name", newn)) as usize,
+                3 => {
+                    n += self.say(o, &format!("WHOWAS {}", oldn)) as usize;
+                    n += self.say(o, &format!("ISON {} {}", oldn, newn)) as usize;
+                }
+                4 => {
+                    if let Some(c) = lc {
+                        n += self.say(c, &format!("MODE {}", newn)) as usize;
+                    }
+                    n += self.say(o, &format!("USERHOST {}", newn)) as usize;
+                }
+                _ => {
+                    // somebody else takes the old name at once
+                    let un = self.unregistered_conns();
+                    if let Some(&c) = un.first() {
+                        self.register(c, &oldn, &format!("u{}", c));
+                        n += 1;
+                    } else {
+                        n += self.say(o, &format!("NICK {}", oldn)) as usize;
+                    }
+                }
+            }
+        } else if labels.iter().any(|l| l.starts_with("MODE/+k") || l.starts_with("MODE/+l") || l.starts_with("MODE/+b") || l.starts_with("MODE/+i") || l.starts_with("MODE/-") || l.starts_with("MODE/+e") || l.starts_with("MODE/+I")) && words.len() >= 2 {
+            // the new state is enforced / shown
+            let ch = words[1].clone();
+            let outsiders: Vec<usize> = regs.iter().copied().filter(|c| self.m.conns[*c].nick.as_ref().map_or(false, |n| !self.m.chans.get(&ch).map_or(false, |x| x.members.contains_key(n)))).collect();
+            match self.r.below(4) {
+                0 | 1 if !outsiders.is_empty() => {
+                    let o = outsiders[self.r.below(outsiders.len())];
+                    let key = self.m.chans.get(&ch).and_then(|c| c.key.clone());
+                    let l = match key {
+                        Some(k) if self.r.chance(2, 3) => format!("JOIN {} {}", ch, k),
+                        _ => format!("JOIN {}", ch),
+                    };
+                    n += self.say(o, &l) as usize;
+                }
+                2 => {
+                    if let Some(c) = lc {
+                        n += self.say(c, &format!("MODE {}", ch)) as usize;
+                    }
+                }
+                _ => {
+                    let o = other(self, None);
+                    let t = self.text();
+                    n += self.say(o, &format!("PRIVMSG {} :{}", ch, t)) as usize;
+                }
+            }
+        } else if labels.iter().any(|l| l.starts_with("MODE/+m") || l.starts_with("MODE/+n") || l.starts_with("MODE/+s") || l.starts_with("MODE/+t") || l.starts_with("MODE/+v") || l.starts_with("MODE/+o") || l.starts_with("MODE/+h") || l.starts_with("MODE/+q") || l.starts_with("MODE/+a")) && words.len() >= 2 {
+            let ch = words[1].clone();
+            let o = other(self, None);
+            let t = self.text();
+            match self.r.below(5) {
+                0 => n += self.say(o, &format!("PRIVMSG {} :{}", ch, t)) as usize,
+                1 => n += self.say(o, &format!("TOPIC {} :{}", ch, t)) as usize,
+                2 => n += self.say(o, &format!("NAMES {}", ch)) as usize,
+                3 => n += self.say(o, &format!("WHO {}", ch)) as usize,
+                _ => n += self.say(o, &format!("LIST {}", ch)) as usize,
+            }
+        } else if has("TOPIC/set/ok") && words.len() >= 2 {
+            let ch = words[1].clone();
+            let o = other(self, lc);
+            match self.r.below(3) {
+                0 => n += self.say(o, &format!("LIST {}", ch)) as usize,
+                1 => n += self.say(o, &format!("TOPIC {}", ch)) as usize,
+                _ => n += self.say(o, &format!("JOIN {}", ch)) as usize,
+            }
+        } else if labels.iter().any(|l| l.starts_with("PART/ok/last") || l.starts_with("end/")) {
+            // a channel may just have vanished / a user is gone: look, and re-create
+            let o = other(self, lc);
+            match self.r.below(5) {
+                0 => n += self.say(o, "LIST") as usize,
+                1 => n += self.say(o, "LUSERS") as usize,
+                2 => n += self.say(o, "NAMES") as usize,
+                3 => {
+                    let ch = if words.len() >= 2 && words[0].eq_ignore_ascii_case("PART") { words[1].split(',').next().unwrap_or("#a").to_string() } else { self.pick_chan_pool() };
+                    n += self.say(o, &format!("JOIN {}", ch)) as usize;
+                    n += self.say(o, &format!("MODE {}", ch)) as usize;
+                    n += self.say(o, &format!("TOPIC {}", ch)) as usize;
+                }
+                _ => {
+                    let hist: Vec<String> = self.m.history.keys().cloned().collect();
+                    if let Some(h) = hist.last() {
+                        n += self.say(o, &format!("WHOWAS {}", h)) as usize;
+                        n += self.say(o, &format!("ISON {}", h)) as usize;
+                    }
+                }
+            }
+        } else if has("OPER/ok") {
+            if let Some(c) = lc {
+                let me = self.nick_of(c);
+                let o = other(self, lc);
+                match self.r.below(4) {
+                    0 => n += self.say(o, &format!("WHOIS {}", me)) as usize,
+                    1 => n += self.say(c, &format!("MODE {}", me)) as usize,
+                    2 => n += self.say(o, &format!("USERHOST {}", me)) as usize,
+                    _ => n += self.say(c, "LUSERS") as usize,
+                }
+            }
+        } else if line.starts_with("AWAY") {
+            if let Some(c) = lc {
+                let me = self.nick_of(c);
+                let o = other(self, lc);
+                n += self.say(o, &format!("PRIVMSG {} :are you there", me)) as usize;
+                n += self.say(o, &format!("USERHOST {}", me)) as usize;
+            }
+        } else if has("UMODE/changed") {
+            if let Some(c) = lc {
+                let me = self.nick_of(c);
+                let o = other(self, lc);
+                match self.r.below(3) {
+                    0 => n += self.say(o, "LUSERS") as usize,
+                    1 => n += self.say(o, &format!("WHOIS {}", me)) as usize,
+                    _ => n += self.say(o, &format!("WHO {}", me)) as usize,
+                }
+            }
+        }
+        n
     }
 
     pub(crate) fn step(&mut self, kind: K) -> bool {
